@@ -398,6 +398,43 @@ _r = random.Random(seed)
 uuid.uuid4 = lambda: uuid.UUID(int=_r.getrandbits(128), version=4)
 import tel2puml.events
 from tel2puml.pv_to_puml.pv_to_puml import pv_to_puml_string
+import tel2puml.puml_graph as _pg
+from networkx import topological_sort as _topo
+def _export(g):
+    # the PUMLGraph exactly as write_puml_string sees it (node kinds, labels, break flags, sub graphs, adjacency in
+    # networkx insertion order, head = first node of a topological sort) - for the V.Puml.Linearise correspondence leg
+    from tel2puml.tel2puml_types import PUMLEvent
+    nodes = list(g.nodes)
+    idx = {n: i for i, n in enumerate(nodes)}
+    ts = list(_topo(g))
+    out = {"head": idx[ts[0]] if ts else 0, "nodes": [], "succ": [[idx[x] for x in g.succ[n]] for n in nodes]}
+    for n in nodes:
+        if isinstance(n, _pg.PUMLEventNode):
+            brk = PUMLEvent.BREAK in n.event_types
+            if n.sub_graph is not None:
+                out["nodes"].append({"k": "loop" if PUMLEvent.LOOP in n.event_types else "sub", "g": _export(n.sub_graph), "brk": brk})
+            else:
+                info = ""
+                if n.extra_info.get("is_branch", False):
+                    info = f",BCNT,user={n.node_type},name=BC{n.branch_number}"
+                out["nodes"].append({"k": "ev", "label": f"{n.node_type}{info}", "brk": brk})
+        elif isinstance(n, _pg.PUMLOperatorNode):
+            o, k = n.operator_type.value
+            out["nodes"].append({"k": "op", "o": o, "kind": k})
+        elif isinstance(n, _pg.PUMLKillNode):
+            out["nodes"].append({"k": "kill"})
+        else:
+            out["nodes"].append({"k": "other"})
+    return out
+_cap = {}
+_orig_write = _pg.PUMLGraph.write_puml_string
+def _write(self, *a, **k):
+    try:
+        _cap["graph"] = _export(self)
+    except BaseException as e:
+        _cap["graph_err"] = type(e).__name__
+    return _orig_write(self, *a, **k)
+_pg.PUMLGraph.write_puml_string = _write
 class TO(Exception): pass
 def h(*a): raise TO()
 signal.signal(signal.SIGALRM, h)
@@ -405,8 +442,11 @@ for line in sys.stdin:
     req = json.loads(line)
     _r.seed(seed * 1000003 + req.get("useed", 0))      # uuid stream depends on the request only, not on batching
     signal.alarm(req.get("timeout", 60))
+    _cap.clear()
     try:
         out = {"ok": pv_to_puml_string(req["jobs"], req["name"])}
+        if "graph" in _cap:
+            out["graph"] = _cap["graph"]
     except TO:
         out = {"err": "timeout"}
     except BaseException as e:
@@ -570,3 +610,24 @@ def load_corpus(repo):
             continue
         out.append((str(f.relative_to(root)), txt))
     return out
+
+
+def coq_pgraph(g, it):
+    """exported PUMLGraph (see WORKER._export) as a V.Puml.Linearise.pgraph term"""
+    ns = []
+    for i, n in enumerate(g["nodes"]):
+        brk = "true" if n.get("brk") else "false"
+        if n["k"] == "ev":
+            t = f"PEvent {it(n['label'])} {brk}"
+        elif n["k"] in ("loop", "sub"):
+            t = f"{'PLoop' if n['k'] == 'loop' else 'PSub'} ({coq_pgraph(n['g'], it)}) {brk}"
+        elif n["k"] == "op":
+            t = "POp %s %s" % ({"START": "OStart", "PATH": "OPath", "END": "OEnd"}[n["o"]],
+                               "KLoop" if n["kind"] == "LOOP" else f"(KGate {n['kind']})")
+        elif n["k"] == "kill":
+            t = "PKill"
+        else:
+            raise ValueError("unknown PUML node kind")
+        ns.append(f"({i}, {t})")
+    sc = [f"({i}, {coq_list([str(x) for x in l])})" for i, l in enumerate(g["succ"])]
+    return f"PGraph {coq_list(ns)} {coq_list(sc)} {g['head']}"
